@@ -10,7 +10,7 @@ THEOREMS = ["C18_view_follows_snapshots", "C18_members_and_events_follow_any_sna
             "C18_staying_member_keeps_old_kinds", "C18_iteration_order_irrelevant",
             "C18_oracle_holds_of_model"]
 RULE = ("histories of membership snapshots sent to the agent of a real cluster.Cluster (do-nothing provider, "
-        "in-memory Remoter): exhaustive over a reduced universe (self + 2 members, 2 kinds, an alphabet of 8 "
+        "in-memory Remoter): exhaustive over a reduced universe (self + 2 members, 2 kinds, an alphabet of 6 (thorough: 8) "
         "snapshots incl. a duplicated entry, a same-id-other-kinds entry and the self-only snapshot; all "
         "histories up to length 3, 4 in the thorough tier), then random histories (<= 6 snapshots) over 5 members "
         "x 3 kinds built from grow / shrink / repeat / resample moves with duplicate entries, same id with other "
@@ -65,14 +65,16 @@ class Agent(Part):
         own = [0]
         s = mem(0, own)
         m1, m1b, m2 = mem(1, [1]), mem(1, [0]), mem(2, [0, 1])
-        alpha = [[s], [s, m1], [m2, s], [s, m1, m2], [m1, s, m1], [s, m1b], [m1, m1b, s, m2], [s, m1b, m1]]
+        alpha = [[s], [s, m1], [m2, s], [s, m1, m2], [s, m1b], [m1, m1b, s, m2]]
+        if tier != "quick":
+            alpha += [[m1, s, m1], [s, m1b, m1]]
         maxlen = 3 if tier == "quick" else 4
         for n in range(1, maxlen + 1):
             for combo in itertools.product(range(len(alpha)), repeat=n):
                 cases.append({"input": {"self": 0, "own": own, "hist": [alpha[c] for c in combo]},
                               "class": "exhaustive"})
         # ---- random over 5 members x 3 kinds
-        nrand = 300 if tier == "quick" else 8000
+        nrand = 250 if tier == "quick" else 8000
         for r in range(nrand):
             self_id = rng.choice([0, 0, 0, 3])
             own = sorted(rng.sample(range(NK), rng.randint(0, NK)))
